@@ -2,11 +2,15 @@
 Every reachable state of the real HighJumpCompetition within the bounds x every call of the alphabet,
 legal or not: U1 refusal type, U2 refusal leaves the full internal snapshot untouched, U3 state order,
 U4/U5 accepted exactly when the rules (reference model, lock-step) allow it."""
+import time
 from vlib import common, hjmc
-from vlib.common import Report
+from vlib.common import Report, Violation
 from checks import hjcommon
 
 PID = 'C02'
+# long jump-offs (n athletes tied, up to J rounds, bar moves): every rule-conforming continuation, and at EVERY node every alphabet call
+QUICK_JOPROBE = [(3, 3, (0, -1, 1)), (2, 4, (0, -1, 1)), (4, 2, (0, -1))]
+THOROUGH_JOPROBE = [(3, 4, (0, -1, 1)), (2, 6, (0, -1, 1)), (4, 3, (0, -1)), (3, 5, (0, -1)), (5, 2, (0,))]
 
 
 def run(tier):
@@ -15,6 +19,16 @@ def run(tier):
     bl = hjcommon.QUICK_BOUNDS if tier == 'quick' else hjcommon.THOROUGH_BOUNDS + hjcommon.HUGE_BOUNDS
     hjcommon.explore(rep, ('C02',), bl, ('U',))
     hjcommon.probe_long_cards(rep, ('U', 'long'))
+    for (n, J, deltas) in (QUICK_JOPROBE if tier == 'quick' else THOROUGH_JOPROBE):
+        t0 = time.time()
+        tot, viol = hjmc.jo_long(n, J, deltas, probe=True)
+        rep.part('long jump-off with full-alphabet probes at every node (%d athletes tied, up to %d rounds, bar moves %r)' % (n, J, list(deltas)),
+                 wall_s=round(time.time() - t0, 1), **tot)
+        rep.count(evaluations=tot['probes'], calls_tried=tot['probes'], refused_calls_checked=tot['refused'],
+                  traces_validated_against_impl=tot['lockstep'])
+        for sig, hist, msg in viol:
+            if sig.startswith('U') or sig.startswith('deep:'):
+                rep.add_violation(Violation(sig, dict(bounds=[n, 2, J], history=hjmc.fmt_hist(hist)), msg))
     rep.coverage['rule'] = ('explicit-state BFS over the live competition object; every alphabet call {add new/existing bib, bar +1/0/-1, '
                             'cleared/failed/passed/retired x every bib} applied to a clone of every reachable state; dedup on the reflected '
                             'internal snapshot + model state; non-trivial = distinct reachable states')
